@@ -189,7 +189,7 @@ func dischargeAll(e *Engine, units []*Unit, o runOpts, pool *SolverPool) []*Obli
 			// first attempt: quantifier-free unit context (sound: fewer assumptions), z3 5.1 only, short timeout
 			if !ob.Vacuity {
 				ql := e.QueryLite(ob, prelude)
-				r0 := pool.SolveOne(ql, 2*time.Second)
+				r0 := pool.SolveOne(ql, 4*time.Second)
 				if r0.Status == "unsat" {
 					ob.Status = "unsat"
 					ob.Solver = r0.Solver + "/lite"
